@@ -168,7 +168,7 @@ class Normalizer:
             return None
         return t
 
-    def _bind(self, t: FuncInfo, call: ast.Call, suffix: str):
+    def _bind(self, t: FuncInfo, call: ast.Call, suffix: str, subst_all: bool = False):
         """(prefix assignments, rename mapping) for inlining ``t`` at ``call``."""
         a = t.node.args
         params = [p.arg for p in a.posonlyargs + a.args]
@@ -208,7 +208,7 @@ class Normalizer:
         prefix = []
         for p, v in args.items():
             simple = isinstance(v, (ast.Name, ast.Constant)) or (isinstance(v, ast.Attribute) and isinstance(v.value, ast.Name))
-            if p not in assigned and simple:
+            if p not in assigned and (simple or subst_all):
                 mapping[p] = v
             else:
                 new = f"{p}__{suffix}" if p in getattr(self, "_caller_names", ()) else p
@@ -375,7 +375,7 @@ class Normalizer:
                     if len(body) == 1 and isinstance(body[0], ast.Return) and body[0].value is not None and not t.decorators or (
                         len(body) == 1 and isinstance(body[0], ast.Return) and body[0].value is not None and (t.is_static or t.is_classmethod)
                     ):
-                        b = norm._bind(t, c, "x")
+                        b = norm._bind(t, c, "x", subst_all=True)
                         if b is not None and not b[0]:
                             e = copy.deepcopy(body[0].value)
                             return _Rename(b[1]).visit(e)
